@@ -194,7 +194,7 @@ def map_op_func(kind, floats):
         if not plain_unitary(op, 2) or isinstance(op.untagged, cirq.CircuitOperation):
             return op
         u = cirq.unitary(op)
-        if abs(abs(u[0, 0]) - 1) < 1e-12 and np.allclose(u, u[0, 0] * np.eye(len(u)), atol=1e-12):
+        if abs(abs(u[0, 0]) - 1) < 1e-12 and np.allclose(u, u[0, 0] * np.eye(len(u)), rtol=0.0, atol=1e-12):
             return []
         return op
 
